@@ -47,7 +47,7 @@ func run(e *harness.Env) {
 		"chunker (n<=%d): one-page documents {paragraph, intro+paragraph, H1+paragraph} x MaxChunkSize{1,2,5,50,200,800} x OverlapSize{0,1,2,10,100} x OverlapSentences, Chunk and ChunkWithOverlapEnabled; "+
 		"docchunk (n<=%d): ChunkDocumentWithConfig on {paragraph, intro+paragraph} x the size grid. "+
 		"A case is distinct by its descriptor; non-trivial = the input had to be split or an overlap was produced (a clause beyond termination was exercised)",
-		L, map[bool]string{false: "", true: "; limits<50 only for n<=3; plus every 5-segment sequence over 8 segment kinds with r in {1,8}, limits>=50"}[e.Thorough()],
+		L, map[bool]string{false: "", true: "; for n=4 limits<50 only with r=1; plus every 5-segment sequence over 8 segment kinds with r in {1,8}, limits<50 only with r=1"}[e.Thorough()],
 		L-1, map[bool]int{false: 2, true: 3}[e.Thorough()], L-1, map[bool]int{false: 3, true: 4}[e.Thorough()], L-1, L-1)
 	e.Assumptions = []string{
 		"Go's unicode.IsSpace / utf8.ValidString define white space and UTF-8 validity",
@@ -248,8 +248,8 @@ func splitSpace(e *harness.Env, L int) {
 	body := func(minLimNseg int) func(t *text) {
 		return func(t *text) {
 			minLimit := 1
-			if t.nseg >= minLimNseg {
-				minLimit = 50 // the longest sequences only with the limits where the search windows matter
+			if t.nseg >= minLimNseg && t.rep > 1 {
+				minLimit = 50 // the longest repeated texts only with the limits where the search windows matter
 			}
 			forSizeGrid("space=split "+t.part(), minLimit, func(desc string, u unitV, lim int, tp tpcV) {
 				if !e.Own(desc) {
@@ -286,7 +286,7 @@ func splitSpace(e *harness.Env, L int) {
 	forTexts(allAlpha(), 0, L, []int{1, 8, 40}, body(L)) // thorough: <=3 segments every limit, 4 segments limits>=50
 	{
 		forTexts(alphaIndex(reducedAlpha...), L+1, L+1, []int{1, 8}, body(L))
-		e.Note("split_extra", fmt.Sprintf("all sequences of exactly %d segments over %v, r in {1,8}, limits>=50", L+1, reducedAlpha))
+		e.Note("split_extra", fmt.Sprintf("all sequences of exactly %d segments over %v, r in {1,8} (limits<50 only with r=1)", L+1, reducedAlpha))
 	}
 }
 
